@@ -140,19 +140,73 @@ func isArrayKey(v LNumber) bool {
 	return isInteger(v) && v < LNumber(int((^uint(0))>>1)) && v > LNumber(0) && v < LNumber(MaxArrayIndex)
 }
 
-func parseNumber(number string) (LNumber, error) {
-	var value LNumber
-	number = strings.Trim(number, " \t\n")
-	if v, err := strconv.ParseInt(number, 0, LNumberBit); err != nil {
-		if v2, err2 := strconv.ParseFloat(number, LNumberBit); err2 != nil {
-			return LNumber(0), err2
-		} else {
-			value = LNumber(v2)
-		}
-	} else {
-		value = LNumber(v)
+// isDecimalNumeral reports whether s is digits with an optional fraction and
+// an optional decimal exponent (Lua 5.1 manual section 2.1), e.g. 3, 3., .5,
+// 0010, 3.14e-2.
+func isDecimalNumeral(s string) bool {
+	i, digits := 0, 0
+	for ; i < len(s) && '0' <= s[i] && s[i] <= '9'; i++ {
+		digits++
 	}
-	return value, nil
+	if i < len(s) && s[i] == '.' {
+		for i++; i < len(s) && '0' <= s[i] && s[i] <= '9'; i++ {
+			digits++
+		}
+	}
+	if digits == 0 {
+		return false
+	}
+	if i < len(s) && (s[i] == 'e' || s[i] == 'E') {
+		i++
+		if i < len(s) && (s[i] == '+' || s[i] == '-') {
+			i++
+		}
+		digits = 0
+		for ; i < len(s) && '0' <= s[i] && s[i] <= '9'; i++ {
+			digits++
+		}
+		if digits == 0 {
+			return false
+		}
+	}
+	return i == len(s)
+}
+
+// parseNumber converts a Lua numeral with optional surrounding blanks and an
+// optional sign: a decimal numeral, or 0x/0X followed by hexadecimal digits.
+// Go's own literal syntax (leading-zero octal, 0b, 0o, '_' separators,
+// hexadecimal floats, "inf", "nan") is not Lua's and is rejected.
+func parseNumber(number string) (LNumber, error) {
+	s := strings.Trim(number, " \t\n")
+	neg := false
+	if len(s) > 0 && (s[0] == '+' || s[0] == '-') {
+		neg = s[0] == '-'
+		s = s[1:]
+	}
+	var value float64
+	if len(s) > 2 && s[0] == '0' && (s[1] == 'x' || s[1] == 'X') {
+		for i := 2; i < len(s); i++ {
+			c := s[i]
+			if !('0' <= c && c <= '9' || 'a' <= c && c <= 'f' || 'A' <= c && c <= 'F') {
+				return LNumber(0), &strconv.NumError{Func: "parseNumber", Num: number, Err: strconv.ErrSyntax}
+			}
+		}
+		v, err := strconv.ParseUint(s[2:], 16, 64)
+		if err != nil { // more than 64 bits: saturate as strtoul does
+			v = ^uint64(0)
+		}
+		value = float64(v)
+	} else {
+		if !isDecimalNumeral(s) {
+			return LNumber(0), &strconv.NumError{Func: "parseNumber", Num: number, Err: strconv.ErrSyntax}
+		}
+		// on a range error ParseFloat returns the correctly rounded ±Inf
+		value, _ = strconv.ParseFloat(s, LNumberBit)
+	}
+	if neg {
+		value = -value
+	}
+	return LNumber(value), nil
 }
 
 func popenArgs(arg string) (string, []string) {
